@@ -94,6 +94,11 @@ func H_C14_CmpDerive() {
 	for k := 0; k < 2; k++ {
 		idx := vsym.Uint32([]string{"index0", "index1", "index2", "index3"}[k])
 		vsym.Assume(idx < 1<<31)
+		if vsym.Choose("fixed-index", 2) == 1 {
+			// a concrete index whose four bytes all differ: a byte-order or truncation slip in ser32(i) shows as a
+			// counterexample without symbolic index, which the native replay reproduces
+			idx = 0x01020304
+		}
 		var wantChain []byte
 		wantKey[k], wantChain = expect(idx)
 		for _, id := range ids {
